@@ -14,7 +14,7 @@ RULE = ("elementwise ops (gelu exact/tanh, silu, silu_glu): outputs and autograd
         "float64) on a 240001-point quadrature grid over [-12,12] (Gauss-Hermite x grid tensor product for silu_glu), mult on a "
         "161-point log grid in [1/16,16] + end points + random; softmax / attention / cross_entropy / norms: RMS on fixed-seed "
         "N(0,1) tensors with >= 2^20 elements over log-uniform + corner hyper-parameters. Oracle: the bands of the statement, "
-        "verbatim. Every point is non-trivial; distinct = (op, hyper-parameter tuple rounded to 3 digits).")
+        "verbatim. Every point is non-trivial; distinct = (op, hyper-parameter tuple rounded to 3 digits). A third of the norm cases spread the normalised width over two trailing dims.")
 ASSUMPTIONS = ["quadrature error < 1e-6; Monte-Carlo sampling error < 0.5% (>= 2^20 elements)", "bands are those of the statement"]
 IMPORTS = ["unit_scaling.functional", "unit_scaling.core.functional"]
 REQUIRED_MONITORS = ["band:elementwise", "band:silu_glu", "band:softmax", "band:attention", "band:cross_entropy", "band:norms", "exact:uniform-logits"]
